@@ -89,6 +89,36 @@ def points_for(tree, rng, k=5):
     return pts
 
 
+def known_family(tree):
+    """does the expression contain a `//` whose two operands the real parser reduces to literals, or a `%` whose operands share
+    a symbol after the real parser's simplification?  (the operand texts are parsed on their own by the real parser)"""
+    found = []
+
+    def rec(t):
+        if t[0] == "bin":
+            rec(t[2]); rec(t[3])
+            if t[1] in ("//", "%"):
+                try:
+                    with warnings.catch_warnings():
+                        warnings.simplefilter("ignore")
+                        a, b = B.as_expression(E.to_str_full(t[2])), B.as_expression(E.to_str_full(t[3]))
+                    fa = set() if isinstance(a, (int, float)) else {str(x) for x in a.free_symbols}
+                    fb = set() if isinstance(b, (int, float)) else {str(x) for x in b.free_symbols}
+                    if t[1] == "//" and not fa and not fb:
+                        found.append("floordiv-literal-negative-quotient")
+                    if t[1] == "%" and fa & fb:
+                        found.append("mod-common-symbol-negative-factor")
+                except Exception:
+                    pass
+        elif t[0] == "neg":
+            rec(t[1])
+        elif t[0] == "app":
+            for x in t[2]:
+                rec(x)
+    rec(tree)
+    return found[0] if found else None
+
+
 def check_string(ctx, s, tree, rng, what, power="**"):
     ctx.stats["evaluations"] += 1
     with warnings.catch_warnings():
@@ -127,8 +157,14 @@ def check_string(ctx, s, tree, rng, what, power="**"):
             continue
         decided += 1
         if not compare.close(val, exp, compare.has_float(got)):
+            # the two listed sympy findings also arise when sympy's own simplification turns the operands of `//` into literals
+            # (a.b // a.b // (-(1/2)) -> 1 // (-1/2)) or gives the operands of `%` a common symbol: same witness families
+            wid = known_family(tree)
             ctx.violation("failing-input", f"{what}: value differs from the standard mathematical reading", {"expression": s, "point": env},
-                          {"parsed": str(got), "value": val}, {"reading": E.to_str_full(tree), "value": exp})
+                          {"parsed": str(got), "value": val}, {"reading": E.to_str_full(tree), "value": exp}, witness_id=wid)
+            if wid is not None:
+                ctx.stats["known_family_" + wid] += 1
+                return None
             return None
     if decided:
         ctx.stats["strings_decided"] += 1
